@@ -219,6 +219,7 @@ EXTRA_ENGINES = [
     ("TrackShare", ["C04"], "TLA+ heap model of which tracks share which list / Obs objects (constructor keeps the list, slices share observations, copy is deep); "
                             "every call history replayed"),
     ("Dedup", ["C04"], "TLA+ definition of Track.cleanDuplicates (runs of equal neighbours collapse to the first); every sequence x code replayed"),
+    ("LikeMatch", ["C02"], "TLA+ model of compLike (LIKE of Track.query / getTracks) as coded; greedy = existential placement; every pair replayed"),
     ("BoundingBox", ["C19"], "TLA+ model of the mutable Bbox over shared corner objects; every operation history replayed"),
     ("TrackEdit", ["C01"], "TLA+ model of the feature table under edits of the observation list, partial effects of failing calls included; every "
                            "history replayed"),
